@@ -171,6 +171,7 @@ class Stage:
         self.errors = []   # infrastructure problems (harness build failure, coqc failure) = broken correspondence
         self.evaluated = 0
         self.wall = {}
+        self.race = None   # first data-race report of the Go race detector that names implementation code
 
 
 class Ctx:
@@ -289,6 +290,19 @@ class Ctx:
         st.wall["harness"] = round(dt, 2)
         st.harness_log = out[-4000:]
         mf = os.path.join(self.casedir, name + ".meta.json")
+        if race and "WARNING: DATA RACE" in out:
+            # the race detector saw two unsynchronised accesses: a concrete failing execution, unless both
+            # stacks lie entirely in harness files (zz_verif_*), which would be a defect of the harness
+            for rep in out.split("==================")[1:]:
+                if "WARNING: DATA RACE" not in rep:
+                    continue
+                frames = [l.strip() for l in rep.splitlines() if l.strip().startswith("/") and ".go:" in l]
+                impl = [f for f in frames if "/usr/lib/go" not in f and "zz_verif_" not in f and "/testing/" not in f]
+                if impl:
+                    st.race = rep.strip()[:6000]
+                    break
+            if st.race and os.path.exists(mf) and out.count("--- FAIL") == out.count("race detected during execution of test"):
+                rc = 0  # the only failure is the race itself: still evaluate the recorded cases
         if rc != 0 or not os.path.exists(mf):
             st.errors.append("harness %s failed (rc=%d): %s" % (name, rc, out[-3000:]))
             return st
@@ -356,6 +370,10 @@ def finish(ctx, pid, P, known_bits=None, rule="", assumptions=None, extra=None, 
                 handled = True
             if code & 1:
                 mismatches.append((st.name, idx, code, desc))
+    for st in ctx.stages:
+        if st.race:
+            violations.append(("race", st.name, -1, 2, {"data_race_report": st.race, "stage": st.name},
+                               "the Go race detector reports unsynchronised accesses in implementation code"))
     nviol = 0
     lines = []
     for fid, hits in sorted(known_hits.items()):
@@ -380,7 +398,7 @@ def finish(ctx, pid, P, known_bits=None, rule="", assumptions=None, extra=None, 
         v = violations[0]
         st = [s for s in ctx.stages if s.name == v[1]][0]
         expl = None
-        if explain and v[1].replace("search", "") in explain:
+        if explain and v[0] != "race" and v[1].replace("search", "") in explain:
             hdr, expr = explain[v[1].replace("search", "")]
             gi = [g for (ix, c, g) in st.failing if ix == v[2]][0]
             expl = explain_case(ctx, v[1], gi, hdr, expr)
